@@ -123,8 +123,8 @@ def run(ctx):
                         top = ""
                     wires = {casing.wire_name(m["name"]): casing.cc_snake(casing.upper_camel(m["name"]))
                              for _, _, _, ms in l2.parts_of(prog, kind) for m in ms}
-                    if res.startswith("ok ") and not accepted and ":[]" in text.replace(" ", ""):
-                        cls = "positional-nested-struct"
+                    if res.startswith("ok ") and not accepted:
+                        cls = "lenient-sequence"
                     elif isinstance(top, str) and top in wires and wires[top] != top:
                         cls = "routing-name"
                     elif "does not list the supported messages" in why:
